@@ -66,7 +66,12 @@ class JWTBearerGrant(BaseGrant, TokenEndpointMixin):
         return claims
 
     def resolve_public_key(self, headers, payload):
-        client = self.resolve_issuer_client(payload["iss"])
+        issuer = payload.get("iss") if isinstance(payload, dict) else None
+        if not issuer or not isinstance(issuer, str):
+            raise InvalidGrantError(description="Missing 'iss' in assertion")
+        client = self.resolve_issuer_client(issuer)
+        if not client:
+            raise InvalidGrantError(description="Invalid 'iss' value in assertion")
         return self.resolve_client_key(client, headers, payload)
 
     def validate_token_request(self):
